@@ -10,6 +10,7 @@ import (
 var table = map[string]func(*checks.Run){
 	"C01": checks.C01,
 	"FIX": checks.Fixtures,
+	"SELFTEST": checks.Selftest,
 	"C02": checks.C02,
 	"C19": checks.C19,
 	"C20": checks.C20,
@@ -52,6 +53,12 @@ func main() {
 		f(r)
 		r.ReportKnown()
 		r.Finish()
+	case "replay":
+		if len(os.Args) < 4 {
+			fmt.Fprintln(os.Stderr, "usage: bklverif replay <ID> <path>")
+			os.Exit(2)
+		}
+		os.Exit(checks.Replay(os.Args[2], os.Args[3]))
 	case "race":
 		checks.RaceWorker(os.Args[2])
 	default:
